@@ -18,7 +18,7 @@ def run(tier: str, keep: bool = False) -> int:
     props = ["C13", "C05", "C10", "C14"]
     famD = ('Numbered({ [SoloBase(1, 1, n) EXCEPT !.mode = "UNACK", !.closure = c, !.chkLim = l, !.chk = k] : n \\in {2, 3}, c \\in BOOLEAN, '
             'l \\in {1, 2, 3}, k \\in {"CRC32", "CRC32C"} })')
-    r.solo("late", "D", famD, ["fd", "eof", "tick", "poll"], 6 if q else 7, props, pre=[["md"]], limit=8000 if q else 250000)
+    r.solo("late", "D", famD, ["fd", "eof", "tick", "poll"], 6 if q else 7, props, pre=[["md"]], limit=8000 if q else 80000)
     famS = 'Numbered({ [SoloBase(2, 1, n) EXCEPT !.mode = "UNACK", !.closure = TRUE, !.fhS = f] : n \\in {0, 1}, f \\in {FhDefault, [FhDefault EXCEPT !.CHECK_LIMIT_REACHED = "ignore"], [FhDefault EXCEPT !.CHECK_LIMIT_REACHED = "abandon"]} })'
     r.solo("closure", "S", famS, ["poll", "tick", "fin"], 7, props, pre=[["put"], ["poll"]])
     pair = 'Numbered({ c \\in FamAll(3, {2, 3}, {"CRC32"}) : c.mode = "UNACK" })'
